@@ -28,6 +28,11 @@ def attach(run):
         mons.append(TrainWindowMonitor(run))
     if "C15" in cl and run.adapter.name == "td7":
         mons.append(DeferredTrainingMonitor(run))
+    if "C03.value" in cl:
+        from . import refine
+
+        if run.adapter.name in refine.NEEDS:
+            mons.append(refine.RefinementMonitor(run))
     if cl & {"C10.b", "C10.c"} and run.plan.get("supply_targets") and run.adapter.name in ("td3", "td3_lap"):
         mons.append(TargetActionMonitor(run))
     return mons
